@@ -34,6 +34,14 @@ CHECKS = {
         note="reference = ref/gto.py (closed-form solid harmonics in exact rationals, 30-node Gauss-Hermite); screened contributions (<1e-15 prefactor) are computed by the reference and added to the tolerance",
         design="DESIGN.md §2 C06",
     ),
+    "C07": dict(
+        level="fault_enumeration",
+        technique="exhaustive crash-point / single-fault enumeration on file contents fed to the real load_one/load_many (recording LineIterator, watchdog)",
+        text="Every line-boundary truncation of every generated file and of every corpus file up to 300 (quick) / 3000 (thorough) lines (larger: every n-th line, cap recorded), every byte truncation of small generated files, "
+        "every single-line delete/duplicate/swap, every single-token substitution from an 8-entry menu, empty/binary/foreign content, explicit fmt= for every module; load_one and load_many (exhausted and abandoned).",
+        note="outcome must be consistent objects or LoadError naming the file with lineno equal to the iterator position; handles closed; watchdog max(20 s, 30x baseline)",
+        design="DESIGN.md §2 C07",
+    ),
     "C08": dict(
         level="fault_enumeration",
         technique="exhaustive fault enumeration on the real dump_one/dump_many/write_input: every subset of required attributes missing, every rejection reason, every faulty-frame index, an OSError injected at every k-th write call",
